@@ -79,6 +79,25 @@ fn compare_lists_ordering(left: &[Value], right: &[Value]) -> Option<Ordering> {
     Some(left.len().cmp(&right.len()))
 }
 
+/// Maps are ordered entry by entry (keys in key order, then values with the same
+/// comparator as list elements), a shorter map that is a prefix of a longer one first.
+fn compare_maps_ordering(
+    left: &std::collections::BTreeMap<String, Value>,
+    right: &std::collections::BTreeMap<String, Value>,
+) -> Option<Ordering> {
+    for ((left_key, left_value), (right_key, right_value)) in left.iter().zip(right.iter()) {
+        match left_key.cmp(right_key) {
+            Ordering::Equal => {}
+            ord => return Some(ord),
+        }
+        match compare_value_for_list_ordering(left_value, right_value) {
+            Some(Ordering::Equal) => {}
+            non_eq => return non_eq,
+        }
+    }
+    Some(left.len().cmp(&right.len()))
+}
+
 fn value_order_rank(value: &Value) -> u8 {
     match value {
         Value::Map(_) => 0,
@@ -157,7 +176,7 @@ pub(super) fn order_compare_non_null(left: &Value, right: &Value) -> Option<Orde
             }
 
             match (left, right) {
-                (Value::Map(l), Value::Map(r)) => l.partial_cmp(r),
+                (Value::Map(l), Value::Map(r)) => compare_maps_ordering(l, r),
                 (Value::List(l), Value::List(r)) => compare_lists_ordering(l, r),
                 (Value::DateTime(l), Value::DateTime(r)) => Some(l.cmp(r)),
                 (Value::Blob(l), Value::Blob(r)) => Some(l.cmp(r)),
